@@ -291,6 +291,9 @@ struct EpisodeState {
     pending_dns: Vec<(IpAddr, bool)>,
     sizes_seen: BTreeMap<&'static str, u64>,
     check_c18: bool,
+    /// What this episode's user mostly does (swarm style): 0 anything, 1 flows, 2 freeze /
+    /// clear while data keeps changing, 3 hop details and addresses, 4 dialogs.
+    focus: u8,
 }
 
 fn row_text(buf: &Buffer, y: u16) -> String {
@@ -541,6 +544,46 @@ impl EpisodeState {
         self.pending_dns = still;
     }
 
+    /// The command of this frame: overlays are left again soon (most keys do nothing in
+    /// them), the episode's focus boosts the commands of one area, the rest is the pool.
+    fn choose_cmd_for(&mut self, app: &TuiApp) -> Cmd {
+        if (app.show_help || app.show_settings) && self.focus != 4 && self.tape.chance(300) {
+            return if app.show_help { Cmd::ToggleHelp } else { [Cmd::ToggleSettings, Cmd::ClearSelection][self.tape.pick(2)] };
+        }
+        if self.focus == 4 && self.tape.chance(700) {
+            // the settings dialog: walk its tabs and items to their ends, edit the column list
+            if !app.show_settings {
+                return [Cmd::SettingsTab(6), Cmd::SettingsTab(6), Cmd::ToggleSettings, Cmd::SettingsTab(0), Cmd::SettingsTab(3)][self.tape.pick(5)];
+            }
+            // mostly down, so that the last items of a long list are reached; the column
+            // list is edited (move up / down, toggle) wherever the cursor is
+            return match self.tape.weighted(&[62, 12, 8, 8, 4, 2, 2, 2]) {
+                0 => Cmd::NextHop,
+                1 => Cmd::NextHopAddress,
+                2 => Cmd::PreviousHopAddress,
+                3 => Cmd::ToggleChart,
+                4 => Cmd::PreviousHop,
+                5 => Cmd::NextTrace,
+                6 => Cmd::PreviousTrace,
+                _ => Cmd::SettingsTab(6),
+            };
+        }
+        let boosted: &[Cmd] = match self.focus {
+            1 => &[Cmd::ToggleFlows, Cmd::NextTrace, Cmd::PreviousTrace, Cmd::NextHop, Cmd::PreviousHop, Cmd::ToggleFreeze, Cmd::NextHopAddress, Cmd::ClearTraceData, Cmd::NextTrace, Cmd::NextHop],
+            2 => &[Cmd::ToggleFreeze, Cmd::ClearTraceData, Cmd::NextHop, Cmd::PreviousHop, Cmd::NextHopAddress, Cmd::ToggleHopDetails, Cmd::ToggleFreeze, Cmd::ExpandPrivacy],
+            3 => &[Cmd::ToggleHopDetails, Cmd::NextHopAddress, Cmd::PreviousHopAddress, Cmd::NextHop, Cmd::PreviousHop, Cmd::NextHopAddress, Cmd::ExpandHosts, Cmd::ToggleFreeze],
+            _ => &[],
+        };
+        if !boosted.is_empty() && self.tape.chance(450) {
+            // in flows focus, enter flows mode first
+            if self.focus == 1 && !app.show_flows && self.tape.chance(500) {
+                return Cmd::ToggleFlows;
+            }
+            return boosted[self.tape.pick(boosted.len())];
+        }
+        self.choose_cmd()
+    }
+
     fn choose_cmd(&mut self) -> Cmd {
         const POOL: &[(Cmd, u32)] = &[
             (Cmd::NextHop, 14),
@@ -617,6 +660,28 @@ impl FrameHook for EpisodeState {
         let rows: Vec<String> = (0..buffer.area.height).map(|y| row_text(buffer, y)).collect();
         *self.sizes_seen.entry(size_class(size.0, size.1)).or_insert(0) += 1;
         self.counters.add(&format!("frames.view.{}", view_name(app)), 1);
+        if app.frozen_start.is_some() {
+            self.counters.add("reach.frozen_frame", 1);
+            if app.show_flows && app.table_state.selected().is_some() {
+                self.counters.add("reach.frozen_flows_selected", 1);
+            }
+        }
+        if app.show_flows {
+            self.counters.add("reach.flows_mode_frame", 1);
+            let lens: std::collections::BTreeSet<usize> = app.selected_tracer_data.flows().iter().map(|(_, id)| app.selected_tracer_data.hops_for_flow(*id).len()).collect();
+            if lens.len() > 1 {
+                self.counters.add("reach.flows_of_unequal_length", 1);
+            }
+        }
+        if app.selected_hop_address > 0 {
+            self.counters.add("reach.second_address_selected", 1);
+        }
+        if app.show_settings && app.settings_tab_selected == 6 {
+            self.counters.add("reach.columns_tab_frame", 1);
+            if app.setting_table_state.selected().is_some_and(|i| i >= 25) {
+                self.counters.add("reach.columns_tab_last_items", 1);
+            }
+        }
         let before = self.violations.len();
         let hop_count = self.check_selection(app);
         if self.check_c18 {
@@ -672,7 +737,7 @@ impl FrameHook for EpisodeState {
             Cmd::Quit
         } else {
             self.frames_left -= 1;
-            self.choose_cmd()
+            self.choose_cmd_for(app)
         };
         let bytes: Vec<u8> = if cmd == Cmd::Quit && self.quitting > 4 {
             vec![0x03] // ctrl-c always leaves the main view
@@ -683,6 +748,22 @@ impl FrameHook for EpisodeState {
             let _ = libc::write(self.master, bytes.as_ptr().cast(), bytes.len());
         }
         self.counters.add(&format!("keys.{cmd:?}"), 1);
+        if std::env::var_os("TUISIM_TRACE").is_some() {
+            let n_addr = app.table_state.selected().and_then(|s| app.selected_tracer_data.hops_for_flow(app.selected_flow).get(s).map(trippy_core::Hop::addr_count));
+            eprintln!(
+                "frame {} view {} trace {} flow {} (flows mode {}) selected {:?} addr-index {} of {:?} frozen {} hops {} -> key {cmd:?}",
+                self.frames,
+                view_name(app),
+                app.trace_selected,
+                app.selected_flow.0,
+                app.show_flows,
+                app.table_state.selected(),
+                app.selected_hop_address,
+                n_addr,
+                app.frozen_start.is_some(),
+                app.selected_tracer_data.hops_for_flow(app.selected_flow).len(),
+            );
+        }
         self.abs.u8(cmd_code(cmd));
         self.prev = Some(Prev {
             privacy: app.tui_config.privacy_max_ttl,
@@ -796,6 +877,20 @@ pub fn run_episode(tape: Tape, env: &Env, check_c18: bool) -> Outcome {
     // targets and configuration
     let ntargets = 1 + t.weighted(&[70, 20, 10]) as u8;
     let mut gen: GenConfig = gen_config(&mut t, Vec::new(), Some(&env.geo_file), true);
+    // flows mode needs one target and a per-flow strategy: a third of the episodes is such a trace
+    let ntargets = if t.chance(350) {
+        for (name, val) in [("protocol", "udp"), ("multipath-strategy", ["paris", "dublin"][t.pick(2)])] {
+            let g = &mut gen.given[crate::cfggen::opt_index(name)];
+            g.cli = Some(val.to_string());
+        }
+        for name in ["unprivileged", "max-flows"] {
+            gen.given[crate::cfggen::opt_index(name)] = Default::default();
+        }
+        counters.add("episodes.multipath-biased", 1);
+        1
+    } else {
+        ntargets
+    };
     let fam = gen.given[crate::cfggen::opt_index("addr-family")].cli.clone().or(gen.given[crate::cfggen::opt_index("addr-family")].file.clone());
     let v6 = match fam.as_deref() {
         Some("ipv6") => true,
@@ -921,7 +1016,9 @@ pub fn run_episode(tape: Tape, env: &Env, check_c18: bool) -> Outcome {
         .map(|(f, name)| TraceInfo::new(f.tracer.clone(), name.clone()))
         .collect();
     let mut app = TuiApp::new(tui_config, resolver.clone(), geoip, traces);
-    let frames_budget = 20 + t.skewed(180);
+    let focus = [0u8, 1, 2, 3, 4, 0, 1, 2][t.pick(8)];
+    // a dialog episode needs enough key presses to walk a list of some thirty items
+    let frames_budget = if focus == 4 { 60 + t.draw(140) } else { 20 + t.skewed(180) };
     let state = Rc::new(RefCell::new(EpisodeState {
         tape: Tape::from_values(Vec::new()),
         app: std::ptr::addr_of!(app),
@@ -943,6 +1040,7 @@ pub fn run_episode(tape: Tape, env: &Env, check_c18: bool) -> Outcome {
         pending_dns: Vec::new(),
         sizes_seen: BTreeMap::new(),
         check_c18,
+        focus,
     }));
     let hook: Rc<RefCell<dyn FrameHook>> = state.clone();
     let (w0, h0) = [(80u16, 24u16), (120, 40), (200, 60), (40, 12)][t.pick(4)];
